@@ -119,6 +119,24 @@ func Execute(c Config) *Result {
 	case ast.Subscription:
 		root = c.Schema.Subscription
 	}
+	// executable directives of the user on the operation itself (locations QUERY / MUTATION) wrap the
+	// whole execution: one that fails leaves data null with one error that has no path
+	if !x.SkipDirectives {
+		for _, d := range c.Op.Directives {
+			def := c.Schema.Directives[d.Name]
+			if builtinDirective(d.Name) || def == nil {
+				continue
+			}
+			key := "@" + goDirName(d.Name) + ":" + x.dirTag(d)
+			x.res.Dirs = append(x.res.Dirs, key)
+			if o := x.Plan.Dir("D:" + key); o.Kind == plan.Error {
+				x.addErr("", "directive", o.Msg)
+				x.res.DirBlocked++
+				x.res.Data = null()
+				return x.res
+			}
+		}
+	}
 	v, isNull := x.selectionSet(root, "", []ast.SelectionSet{c.Op.SelectionSet}, "", true)
 	if isNull {
 		x.res.Data = null()
